@@ -271,7 +271,7 @@ func (e *Env) JudgeCheck(who string, rq gen.Request, st *rm.State, allowed bool,
 		if faulty {
 			return
 		}
-		e.Violate("unexpected_error:"+errKind(err), "err="+errSig(err), "%s: error %v (%s)", desc, err, ref)
+		e.Violate("unexpected_error:"+errKind(err), "err="+errSig(err)+e.SigExtra+e.grantTags(st, rq), "%s: error %v (%s)", desc, err, ref)
 		return
 	}
 	sig := shapeSig(e.Sc.Model, rq) + e.SigExtra
